@@ -222,7 +222,12 @@ class Bundle:
 
         # Now `val.name` is set appropriately.
         # Add it to our type-based containers, and return it.
-        return _add(bundle=self, val=val)
+        try:
+            return _add(bundle=self, val=val)
+        except BaseException:
+            if name is not None:
+                val.name = None  # A refused attribute keeps the name it had: none
+            raise
 
     def get(self, name: str) -> Optional[BundleAttr]:
         """Get attribute `name`. Returns `None` if not present.
@@ -271,8 +276,12 @@ class Bundle:
         assert_bundle_attr(self, val)
 
         # Checks out! Name `val` and add it to our type-based containers.
-        val.name = key
-        _add(bundle=self, val=val)
+        prev, val.name = val.name, key
+        try:
+            _add(bundle=self, val=val)
+        except BaseException:
+            val.name = prev  # A refused attribute keeps the name it had
+            raise
         return None
 
     def __getattr__(self, key):
